@@ -6,6 +6,7 @@ import (
 	"strings"
 
 	"gverif/core"
+	"gverif/engine/args"
 	"gverif/engine/stride"
 )
 
@@ -46,6 +47,43 @@ var commonAssumptions = []string{
 
 var properties = map[string]*property{}
 
+// Frozen exemption tables for ARGS on lapack/gonum, one reason per line,
+// each confirmed by reading the routine. A stale entry fails the check.
+var lapackArgs = args.Options{
+	RecvType: "Implementation",
+	Unchecked: map[string]string{
+		"Dlasy2": "doc comment: 'isgn must be 1 or -1, and n1 and n2 must be 0, 1, or 2, but these conditions are not checked'; internal 2x2 Sylvester kernel with a TODO for optional validation",
+	},
+	CompleteExempt: map[string]string{
+		"Dlacn2.kase":  "reverse-communication state variable, every value is a legal state",
+		"Dlantb.diag":  "any value other than blas.Unit means non-unit (as in the reference, LSAME)",
+		"Dlaset.uplo":  "any value other than Upper/Lower means the full matrix (documented)",
+		"Dlascl.kl":    "only meaningful for band kinds, which panic 'not implemented'",
+		"Dlascl.ku":    "only meaningful for band kinds, which panic 'not implemented'",
+		"Dlasq3.iter":  "in/out iteration counter of the dqds state",
+		"Dlasq3.nDiv":  "in/out counter of the dqds state",
+		"Dlasq3.nFail": "in/out counter of the dqds state",
+		"Dlasq3.ttype": "in/out shift-type state",
+		"Dlasq4.n0in":  "state of the dqds iteration carried between calls",
+		"Dlasq4.ttype": "in/out shift-type state",
+		"Dtgsja.k":     "block-structure output of Dggsvp3; the reference does not validate it either",
+		"Dtgsja.l":     "block-structure output of Dggsvp3; the reference does not validate it either",
+		"Ilaenv.n1":    "environment enquiry: problem dimension, every integer is legal (-1 = unused)",
+		"Ilaenv.n2":    "environment enquiry: problem dimension, every integer is legal (-1 = unused)",
+		"Ilaenv.n3":    "environment enquiry: problem dimension, every integer is legal (-1 = unused)",
+		"Ilaenv.n4":    "environment enquiry: problem dimension, every integer is legal (-1 = unused)",
+		"Iparmq.n":     "environment enquiry: every integer is legal",
+		"Iparmq.ilo":   "environment enquiry: every integer is legal",
+		"Iparmq.ihi":   "environment enquiry: every integer is legal",
+		"Iparmq.lwork": "environment enquiry: unused by design (kept for signature compatibility)",
+	},
+	LenExempt: map[string]string{
+		"Dlascl.a":         "length check and uses are guarded by the same switch on kind (correlated branches); other kinds panic before",
+		"Dtrevc3.selected": "length check and uses are both guarded by howmny == lapack.EVSelected (correlated branches)",
+	},
+}
+var blasArgs = args.Options{RecvType: "Implementation"}
+
 func init() {
 	properties["C01"] = &property{
 		explanation: "Decides structural necessary conditions of C01 for all BLAS code paths: STRIDE — no operand of blas/gonum, the blas64/blas32/cblas* wrappers or the internal/asm Go kernels is indexed, sliced or forwarded with another operand's ld/inc/Stride (units inferred by flow-insensitive fixpoint over integer locals). Does not decide arithmetic correctness of the loop nests, rounding, or assembly semantics.",
@@ -60,14 +98,74 @@ func init() {
 	}
 }
 
-func dump(args []string) {
-	if len(args) == 0 {
+func lapackProp(self, other, what string) *property {
+	return &property{
+		explanation: "Decides structural necessary conditions of " + self + " on the lapack/gonum routines anchored by it (and shared auxiliaries), for every path and both workspace modes: ARGS.query — with lwork == -1 the only stores are to work[0] and the only calls are queries/scalar helpers ('a workspace query touches nothing else'); ARGS.order/.lencheck/.complete — arguments are validated before any operand write, every slice use is preceded by a branch on its length, every int/flag/slice parameter is validated; STRIDE — no operand is addressed with another operand's leading dimension, so results cannot depend on which matrix's ld was used. " + what,
+		assumptions: commonAssumptions,
+		run: func(tier string, res *core.Result) {
+			sc := lapackScope(res, self, other)
+			r := stride.Run(def, sc)
+			r.Floor("index_sites", 800)
+			r.Floor("call_pairs", 300)
+			res.Merge(r)
+			o := lapackArgs
+			a := args.Run(def, core.Scope{Patterns: []string{"./lapack/gonum"}, Files: sc.Files}, o)
+			a.Floor("entry_points", 50)
+			a.Floor("argument_checks", 350)
+			a.Floor("query_mode_effects", 10)
+			res.Merge(a)
+		},
+	}
+}
+
+func init() {
+	properties["C02"] = lapackProp("C02", "C03", "Does not decide backward stability, factor structure, blocked/unblocked agreement or sufficiency of the reported workspace size.")
+	properties["C03"] = lapackProp("C03", "C02", "Does not decide orthogonality, residual identities, ordering of values or convergence.")
+	properties["C07"] = &property{
+		explanation: "Decides, for all 281 exported BLAS and LAPACK entry points and every path through their prologues: ARGS.order (no argument-check panic is reachable after an operand may have been written), ARGS.lencheck (every use of a slice parameter is preceded on every path by a branch on its length — the only thing between a short slice and an out-of-bounds kernel access), ARGS.complete (every int/flag/slice parameter occurs in an argument check; exceptions are a frozen table with reasons), ARGS.query, and STRIDE over BLAS, LAPACK and mat (valid arguments never fault because one operand was addressed with another's stride). Does not decide that the assembly kernels stay in bounds given correct lengths, nor that each check uses the right extent expression.",
+		assumptions: commonAssumptions,
+		run: func(tier string, res *core.Result) {
+			a := args.Run(def, core.Pkgs("./blas/gonum"), blasArgs)
+			a.Floor("entry_points", 120)
+			a.Floor("argument_checks", 800)
+			a.Floor("slice_use_sites", 3000)
+			res.Merge(a)
+			l := args.Run(def, core.Pkgs("./lapack/gonum"), lapackArgs)
+			l.Floor("entry_points", 120)
+			l.Floor("argument_checks", 800)
+			l.Floor("slice_use_sites", 3000)
+			res.Merge(l)
+			r := stride.Run(def, core.Pkgs(append(append([]string{"./mat"}, blasPkgs...), lapackPkgs...)...))
+			r.Floor("index_sites", 6000)
+			res.Merge(r)
+		},
+	}
+	properties["C04"] = &property{
+		explanation: "Decides a structural necessary condition of C04 for every function of mat: STRIDE — every Data[...] index/slice and every (Data, Stride) pair handed to blas64/lapack64 uses the stride of the same matrix (views with Stride > Cols are addressed with their own stride everywhere). Does not decide agreement of specialised dispatch arms with the generic At loop.",
+		assumptions: commonAssumptions,
+		run: func(tier string, res *core.Result) {
+			r := stride.Run(def, core.Pkgs("./mat"))
+			r.Floor("index_sites", 200)
+			r.Floor("literal_pairs", 40)
+			res.Merge(r)
+		},
+	}
+}
+
+func dump(argv []string) {
+	if len(argv) == 0 {
 		return
 	}
 	var res *core.Result
-	switch args[0] {
+	switch argv[0] {
 	case "stride":
-		res = stride.Run(def, core.Pkgs(args[1:]...))
+		res = stride.Run(def, core.Pkgs(argv[1:]...))
+	case "args":
+		if argv[1] == "./lapack/gonum" {
+			res = args.Run(def, core.Pkgs(argv[1:]...), lapackArgs)
+		} else {
+			res = args.Run(def, core.Pkgs(argv[1:]...), blasArgs)
+		}
 	}
 	if res == nil {
 		return
